@@ -33,3 +33,25 @@ def count_sim_states(ctx, r) -> int:
         runs[-1]["generated"] = n
         runs[-1]["mode"] = "simulation"
     return n
+
+
+def freeze_tree(ctx) -> str:
+    """Copy the source trees of the tree under test into the run's scratch directory and make this
+    process and everything it starts import guppylang from that copy (env VERIF_REPO, read by the
+    compat shim).  The check then tests the tree exactly as it was when the run started, even if
+    /repo is committed to or edited while the run is in progress (sources are re-read from disk
+    lazily by inspect/linecache, and fresh reference processes import them anew).
+    Must be called before anything imports gp/guppylang."""
+    import os
+    import shutil
+    import sys
+
+    if "gp" in sys.modules or "guppylang" in sys.modules:
+        raise lib.Machinery("freeze_tree called after guppylang was imported")
+    dst = os.path.join(ctx.workdir, "tree")
+    for sub in ("guppylang/src", "guppylang-internals/src"):
+        shutil.copytree(os.path.join(lib.REPO, sub), os.path.join(dst, sub),
+                        ignore=shutil.ignore_patterns("__pycache__", "*.pyc"))
+    os.environ["VERIF_REPO"] = dst
+    ctx.coverage["tree_under_test"] = {"source": lib.REPO, "frozen_copy": True, "state_at_start": tree_state()}
+    return dst
